@@ -478,6 +478,25 @@ func runSpec(sim *simcore.Sim, sp simSpec, started func(simObs)) (ob simObs) {
 			}
 		}
 	}
+	// A panic inside an offer goroutine does not stop the handler at once: the goroutine's deferred
+	// offerWaitGroup.Done() still runs, so the handler may go on (DECLINE, outcome) and this function
+	// may return before the runtime has taken the process down. Every offer goroutine that ends
+	// normally sends an ACCEPT (possibly empty); an offer without one, in a round whose goroutines
+	// were started, therefore means the process is dying: give it time to do so (the parent then
+	// records the crash). If it survives, the observation is reported as it is.
+	if sp.Mode == "round" && len(ds) > 0 {
+		some, missing := false, false
+		for _, a := range ob.Accepted {
+			if a {
+				some = true
+			} else {
+				missing = true
+			}
+		}
+		if missing && (some || len(ob.Undeployable) == 0) {
+			time.Sleep(3 * time.Second)
+		}
+	}
 	launchedN := 0
 	for _, a := range ob.Accepts {
 		launchedN += len(a)
